@@ -13,17 +13,15 @@ CHECKS = {
                        "Enabled(r) == rule(L, r, debug, registry) is discharged on every path. Harness B: for each entry "
                        "point (selector enumerated by the solver) and symbolic L: a Write happens iff the rule admits the "
                        "entry point's severity.",
-        "bounds": {"quick": "A: <=1 RegisterLevel call, all int64 L/r/value, treated-as in 0..11; B: 61 entry points, all int64 L, "
+        "bounds": {"quick": "A: 1 RegisterLevel call (symbolic value, treated-as in 0..11, option present or not), all int64 L/r; B: 61 entry points, all int64 L, "
                             "LogAttrs/Logit severities -1..13, message 'm', colored+JSON",
                    "thorough": "A: <=2 RegisterLevel calls; B: as quick plus one registered custom level"},
         "outside": "loggers built with a log/slog.Handler option; SetDefault loggers that are neither *Entry nor *logimp; -tags verbose builds",
         "assumptions": ["environment stubs: sync.Pool (LIFO), sync/atomic (sequential), time.Now (fixed instant), runtime.Callers (engine call stack)",
                         "process is a production process (not go test, no debugger, DEBUG unset)"],
         "runs": [
-            {"harness": "VH_C01A", "quick": {"regs": 0}, "thorough": {"regs": 1},
+            {"harness": "VH_C01A", "quick": {"regs": 1}, "thorough": {"regs": 2},
              "covers": ["C01A:reached", "C01A:admitted", "C01A:refused"]},
-            {"harness": "VH_C01A", "quick": {"regs": 1}, "thorough": {"regs": 2}, "thorough_only": True,
-             "covers": ["C01A:reached"]},
             {"harness": "VH_C01B", "quick": {"regs": 0}, "thorough": {"regs": 1},
              "covers": ["C01B:reached", "C01B:emitted"]},
         ],
@@ -86,20 +84,28 @@ CHECKS = {
     },
     "C20": {
         "explanation": "Symbolic execution of shortDur/shortDurFormat/fmtSeconds/fmtMsec/fmtFrac/fmtInt and of ParseDuration/leadingInt/"
-                       "leadingFraction/unitMap in the integer encoding (SMT Int with explicit mod 2^64, z3 5.1.0). The duration is one "
+                       "leadingFraction/unitMap in the integer encoding (SMT Int with explicit mod 2^64; z3 5.1.0 with cvc5 as fallback for totality, cvc5 with z3 as fallback for the round trips). The duration is one "
                        "unconstrained 64-bit value; every index into the fixed 32-byte buffer is an implicit check; paths fork on the digit "
                        "count of each component. On each formatter path the produced bytes are '0'+(v mod 10) terms and the real parser is "
                        "run on that symbolic string: it must return exactly d. The parser's single floating-point expression is handled by "
                        "the checked exactness rule (integer-valued constant factor, product provably below 2^53).",
-        "bounds": {"quick": "formatter totality: all int64, both styles; round trip: fractional style on all int64",
-                   "thorough": "plus round trip of the compact style on all int64 and parser agreement with time.ParseDuration on all strings of length <= 3"},
-        "outside": "parser agreement beyond the string length bound",
+        "bounds": {"quick": "formatter totality: all int64, both styles; round trip: fractional style on ALL int64; compact style on the 1000 values next to MinInt64, MaxInt64 and 0; parser agreement with time.ParseDuration on all strings of <= 2 bytes (all byte values)",
+                   "thorough": "plus round trip of the compact style on all int64"},
+        "outside": "parser agreement beyond 2-byte strings (3 bytes did not finish in 15 minutes: the error paths quote the input rune by rune)",
         "assumptions": ["integer encoding: bit-wise operators only with constant masks/shift counts"],
         "runs": [
             {"harness": "VH_C20F", "pkg": "slog/internal/times", "params": {"frac": 1, "roundtrip": 0},
-             "args": ["-int", "-solver", "z3-new"], "covers": ["C20F:formatted"]},
+             "args": ["-int", "-solver", "z3-new", "-fallback", "cvc5"], "covers": ["C20F:formatted"]},
             {"harness": "VH_C20F", "pkg": "slog/internal/times", "params": {"frac": 0, "roundtrip": 0},
-             "args": ["-int", "-solver", "z3-new"], "covers": ["C20F:formatted"]},
+             "args": ["-int", "-solver", "z3-new", "-fallback", "cvc5"], "covers": ["C20F:formatted"]},
+            {"harness": "VH_C20F", "pkg": "slog/internal/times", "params": {"frac": 1, "roundtrip": 1},
+             "args": ["-int", "-solver", "cvc5", "-fallback", "z3-new"], "covers": ["C20F:formatted", "C20F:parsed"]},
+            {"harness": "VH_C20F", "pkg": "slog/internal/times", "params": {"frac": 0, "roundtrip": 1, "extremes": 1},
+             "args": ["-int", "-solver", "cvc5", "-fallback", "z3-new"], "covers": ["C20F:formatted", "C20F:parsed"]},
+            {"harness": "VH_C20P", "pkg": "slog/internal/times", "quick": {"len": 2}, "thorough": {"len": 2},
+             "covers": ["C20P:parsed", "C20P:std-accepts", "C20P:only-ours-accepts"]},
+            {"harness": "VH_C20F", "pkg": "slog/internal/times", "params": {"frac": 0, "roundtrip": 1}, "thorough_only": True, "timeout_ms": 20000,
+             "args": ["-int", "-solver", "cvc5", "-fallback", "z3-new"], "covers": ["C20F:formatted", "C20F:parsed"]},
         ],
     },
     "C18": {
@@ -118,6 +124,8 @@ CHECKS = {
         "runs": [
             {"harness": "VH_C18", "quick": {"dir": 2, "path": 4, "maps": 1}, "thorough": {"dir": 2, "path": 6, "maps": 2},
              "covers": ["C18:returned", "C18:protected", "C18:outside"]},
+            {"harness": "VH_C18", "quick": {"dir": 1, "path": 3, "maps": 0, "regexp": 1}, "thorough": {"dir": 2, "path": 4, "maps": 1, "regexp": 1},
+             "covers": ["C18:returned", "C18:protected"]},
         ],
     },
     "C19": {
@@ -128,14 +136,16 @@ CHECKS = {
                        "negative and beyond-length values, and scripted readers/writers (short counts, errors, negative counts); after "
                        "every step the return values, error identity classes, panic-or-not (and message after the package prefix), Len, "
                        "String and Bytes must agree.",
-        "bounds": {"quick": "pre-fill <= 2 bytes, arguments <= 2 bytes, spare capacity 0..2, sequences of 2 operations; Grow around 0, 64 and 512",
-                   "thorough": "pre-fill <= 3, arguments <= 3, sequences of 3 operations"},
+        "bounds": {"quick": "pre-fill <= 2 bytes, arguments <= 2 bytes, spare capacity 0..2; sequences of 1 operation (fill 2), 2 operations (fill 1), and a canned read (none/ReadByte/ReadRune) followed by 1 operation; after every step copies of both buffers are probed with UnreadRune and UnreadByte so the last-read state is observable; Grow around 0, 64 and 512",
+                   "thorough": "pre-fill <= 3, arguments <= 3 for single steps; sequences of 2 operations with fill 2; canned read followed by 2 operations"},
         "outside": "capacities (not observable through the listed API); longer sequences and contents",
         "assumptions": ["both implementations run on the same interpreter, so an interpreter error common to both would cancel out (translation validated by the selftest)"],
         "runs": [
             {"harness": "VH_C19", "quick": {"fill": 2, "arg": 2, "steps": 1, "spare": 2}, "thorough": {"fill": 3, "arg": 3, "steps": 1, "spare": 2},
              "covers": ["C19:done"]},
-            {"harness": "VH_C19", "quick": {"fill": 1, "arg": 1, "steps": 2, "spare": 1}, "thorough": {"fill": 2, "arg": 2, "steps": 3, "spare": 2},
+            {"harness": "VH_C19", "quick": {"fill": 1, "arg": 1, "steps": 2, "spare": 1}, "thorough": {"fill": 2, "arg": 1, "steps": 2, "spare": 1},
+             "covers": ["C19:done"]},
+            {"harness": "VH_C19", "quick": {"fill": 2, "arg": 1, "steps": 1, "spare": 1, "prelude": 1}, "thorough": {"fill": 2, "arg": 0, "steps": 2, "spare": 0, "prelude": 1},
              "covers": ["C19:done"]},
         ],
     },
@@ -336,12 +346,13 @@ CHECKS = {
                        "including []byte, nil, error, Stringer, Duration and groups nested to the bound at every position. Asserted: one "
                        "line; time, logger, level, msg first; msg parses back; exactly one pair per attribute under its own (dotted) key "
                        "with its exact value; string-like values quoted; no forged pair.",
-        "bounds": {"quick": "message <= 2 bytes (no attributes); 1 attribute of any kind incl. a group with <= 2 members of any kind at every position; keys of 1 byte", "thorough": "message <= 3 bytes; 1 attribute with group depth 2 and 2-byte keys; plus 2 top-level attributes of any kind (an attribute after a group)"},
+        "bounds": {"quick": "rune kernel: message or string value 'a'+r+'b' for EVERY Unicode scalar value r (strconv.IsPrint as an exact interval function); message <= 2 bytes (no attributes); 1 attribute of any kind incl. a group with <= 2 members of any kind at every position; keys of 1 byte", "thorough": "message <= 3 bytes; 1 attribute with group depth 2 and 2-byte keys; plus 2 top-level attributes of any kind (an attribute after a group)"},
         "outside": "the multi-line error dump under go test / debugger (production mode is set by the harness); user marshallers",
         "assumptions": ["runs of spaces between pairs are not counted as pairs"],
         "runs": [
             {"harness": "VH_C05", "quick": {"attrs": 1, "depth": 1, "msg": 2, "key": 1}, "thorough": {"attrs": 1, "depth": 2, "msg": 3, "key": 2}, "covers": ["C05:rendered"]},
             {"harness": "VH_C05", "quick": {"attrs": 2, "depth": 0, "msg": 0, "key": 1}, "thorough": {"attrs": 2, "depth": 0, "msg": 0, "key": 1}, "thorough_only": True, "covers": ["C05:rendered"]},
+            {"harness": "VH_C05R", "covers": ["C05R:rendered"]},
         ],
     },
     "C06": {
